@@ -722,14 +722,26 @@ def check_p5(ctx) -> None:
         h = cls.methods.get('__hash__')
         ctx.require(h is not None, 'GeophiresInputParameters.__hash__ not found')
         rets = [r.value for r in ast.walk(h.node) if isinstance(r, ast.Return) and r.value is not None]
+        per_return = []
         for r in rets:
+            has = False
+            rdeps: Set[str] = set()
             for a in ast.walk(r):
                 if isinstance(a, ast.Attribute) and isinstance(a.value, ast.Name) and a.value.id == 'self':
-                    deps |= _attr_deps(cls, a.attr, set())
+                    rdeps |= _attr_deps(cls, a.attr, set())
                 if isinstance(a, ast.Call):
                     dd = dotted_name(a.func) or ''
                     if dd.endswith('as_text') or dd.endswith('.read'):
-                        content = True
+                        has = True
+            if any(x in rdeps for x in ('read()', 'as_text()', 'readlines()', 'read_text()')):
+                has = True
+            per_return.append(has)
+            deps |= rdeps
+        # every way __hash__ can answer must cover the whole request text (a branch that hashes only part of the request lets two
+        # different inputs share a cache entry)
+        content = bool(per_return) and all(per_return)
+        if per_return and not all(per_return):
+            deps = {'(one return of __hash__ ignores the input text)'} | deps
     else:
         for a in ast.walk(v):
             if isinstance(a, ast.Call):
@@ -738,7 +750,8 @@ def check_p5(ctx) -> None:
                     content = True
             if isinstance(a, ast.Attribute):
                 deps.add(a.attr)
-    if any(x in deps for x in ('read()', 'as_text()', 'readlines()', 'read_text()')):
+    if not (isinstance(v, ast.Call) and dotted_name(v.func) == 'hash' and len(v.args) == 1 and norm(v.args[0]) == 'input_params') and \
+            any(x in deps for x in ('read()', 'as_text()', 'readlines()', 'read_text()')):
         content = True
     dep_txt = ','.join(sorted(deps)) or norm(v)
     ctx.check(content, 'P5', f'GeophiresXClient.get_geophires_result/cache-key-deps={{{dep_txt}}}',
@@ -776,13 +789,28 @@ INJECTIVE_METHODS = ('encode', 'hexdigest', 'digest')
 def check_key_injective(ctx, f, key_def: ast.Assign, rule: str) -> None:
     """The request text must reach hash() unmodified: any transformation (sorting, set-building, stripping, a helper
     function) makes two different inputs share a key, and the reader is sensitive to order (last occurrence governs)."""
-    texts = [c for c in ast.walk(key_def.value) if isinstance(c, ast.Call) and isinstance(c.func, ast.Attribute)
+    # the key expression together with the single-assignment locals it is built from (`entries = f(text); key = hash(entries)`)
+    roots = [key_def]
+    seen_names: Set[str] = set()
+    todo = [key_def.value]
+    while todo:
+        e = todo.pop()
+        for nm in [x.id for x in ast.walk(e) if isinstance(x, ast.Name) and isinstance(x.ctx, ast.Load)]:
+            if nm in seen_names:
+                continue
+            seen_names.add(nm)
+            ds = [st for st in ast.walk(f.node) if isinstance(st, ast.Assign) and len(st.targets) == 1 and norm(st.targets[0]) == nm
+                  and st.lineno < key_def.lineno]
+            if len(ds) == 1:
+                roots.append(ds[0])
+                todo.append(ds[0].value)
+    texts = [(c, rt) for rt in roots for c in ast.walk(rt.value) if isinstance(c, ast.Call) and isinstance(c.func, ast.Attribute)
              and c.func.attr in ('as_text', 'read', 'read_text')]
-    for c in texts:
+    for c, rt in texts:
         cur = c
         p = parent(cur)
         culprit = None
-        while p is not None and p is not key_def:
+        while p is not None and p is not rt:
             if isinstance(p, ast.Tuple) or (isinstance(p, ast.Call) and cur in p.args and (
                     (dotted_name(p.func) or '') in INJECTIVE_WRAPPERS)) or \
                     (isinstance(p, ast.Attribute) and p.attr in INJECTIVE_METHODS) or \
